@@ -9,7 +9,8 @@
             MultiProgress, println of a member, every line a SUSPEND closure writes, through the
             MultiProgress or through a member) is on the terminal model exactly once, in emission
             order, above the region, after every call.  Scope: Top alignment, no I/O faults,
-            proviso FitsAll.  Bottom alignment: NO theorem at screen level (oracle only).
+            proviso FitsAll.  Bottom alignment and alignment changes: C03_log_bottom_partial /
+            C03_log_bottom_every_op_partial below (proviso FitsAllB).
     Part 3: what happens outside the provisos of part 2 - two refutation witnesses on the faithful
             model (both open findings of the implementation). *)
 From IndModel Require Import MultiSpec.
@@ -201,9 +202,11 @@ Print Assumptions C03_log_outside_fits_refuted.
     model (5 x 10, no bars): println "hello"; suspend(|| write_line ""); println "x": three lines
     were printed, the screen shows "hello", "x" - the empty line has no row.  Open finding
     `empty-line-after-text-only-draw-swallowed` (C01 and C03; C01_empty_line_swallowed_refuted is
-    the single-bar witness; the shared screen oracle reports exactly this class).  FitsAll excludes
-    EVERY empty closure line, i.e. more than this situation: the other empty lines (frame visible,
-    not the first line, fresh terminal) are covered for a single bar by C01_screen only. *)
+    the single-bar witness; the shared screen oracle reports exactly this class).  FitsAll / FitsAllB
+    exclude exactly this state ([closure_ok]: an empty FIRST closure line while last_line_count +
+    zombie_lines_count = 0 and cursor_below = false - D28 plus its harmless twin in which the last
+    write was a write_line or nothing was written yet); every other empty closure line is inside
+    C03_log (C03_empty_closure_lines_covered below). *)
 Definition sw_s0 : sys := mksys [] (new_ms (TTerm (new_ttarget None 0))) 0.
 Definition sw_h : list (N * op) :=
   [(0, OMPrintln [104;101;108;108;111]); (1000000, OMSuspend [[]]); (2000000, OMPrintln [120])].
